@@ -749,6 +749,36 @@ func (m *c16) ops() []*c16Op {
 			must(err)
 			return brk
 		}})
+	add(&c16Op{name: "type3.Issuer.Evaluate(bytes of requests it refuses)", group: "type3", names: []string{"requestBytes"},
+		inputs: func(r *core.Rand) [][]byte {
+			// made, correctly signed and sealed, for ANOTHER issuer (other name key, other key id); or for an origin this issuer
+			// does not have; or with one bit of the signature changed
+			other := type3.NewRateLimitedIssuer(rk[2])
+			other.AddOrigin("origin.example")
+			var b []byte
+			switch r.IntN(3) {
+			case 0:
+				st, err := cl3.CreateTokenRequest(r.Bytes(8), r.Bytes(32), ScalarBytes(r, N, 48), other.TokenKeyID(), other.TokenKey(), "origin.example", other.NameKey())
+				must(err)
+				b = clone(st.Request().Marshal())
+			case 1:
+				st, err := cl3.CreateTokenRequest(r.Bytes(8), r.Bytes(32), ScalarBytes(r, N, 48), iss3.TokenKeyID(), iss3.TokenKey(), "unregistered.example", iss3.NameKey())
+				must(err)
+				b = clone(st.Request().Marshal())
+			default:
+				st, err := cl3.CreateTokenRequest(r.Bytes(8), r.Bytes(32), ScalarBytes(r, N, 48), iss3.TokenKeyID(), iss3.TokenKey(), "origin.example", iss3.NameKey())
+				must(err)
+				b = flipBit(st.Request().Marshal(), 8*(len(st.Request().Marshal())-3))
+			}
+			return [][]byte{b}
+		},
+		call: func(a [][]byte) []byte {
+			resp, _, err := iss3.Evaluate(a[0])
+			if err == nil {
+				return append([]byte("served:"), resp[:0]...)
+			}
+			return []byte("refused")
+		}})
 	add(&c16Op{name: "type3.Attester.VerifyRequest+FinalizeIndex", group: "type3", names: []string{"requestKey", "nameKeyID", "ciphertext", "signature", "blindKeyEnc", "clientKeyEnc", "anonymousOrigin", "blindedRequestKey"},
 		inputs: func(r *core.Rand) [][]byte {
 			blind := ScalarBytes(r, N, 48)
